@@ -21,7 +21,7 @@ LEVEL_TEXT = ("Every bound the real k-best evaluator passes through, not only th
 LEVEL_NOTE = ("Trusts pbmon/ref/worlds.py. Auxiliary: every maxsatz call runs an ASan+UBSan build of the bundled solver source; any "
               "sanitizer report is a violation (none on the unchanged tree).")
 TECHNIQUE = "runtime monitor on Border.update (anytime bounds) + reference-model oracle + explanation parser + ASan/UBSan maxsatz"
-BUDGET = {"quick": 400, "thorough": 5000}
+BUDGET = {"quick": 400, "thorough": 1700}
 TIME_BUDGET = {"quick": 220, "thorough": 3300}
 CASE_TIMEOUT = 60
 WATCHDOG_FRACTION = 0.05
